@@ -2,7 +2,11 @@
 associative operation and does not depend on the target.  Tie T3: the real code runs on the simulated MPI; every
 rank's trace is co-simulated (token mode) against the extracted per-rank program, the symbolic payloads are
 evaluated with the concrete operation and compared bit for bit; the global model's symbolic tree and an independent
-balanced-tree oracle are evaluated against the bits every rank obtains."""
+balanced-tree oracle are evaluated against the bits every rank obtains.
+SEQUENCES of 2-5 calls (sc_reduce / sc_allreduce / sc_reduce_custom / sc_allreduce_custom, changing count / datatype / operator /
+target) run back to back with no barrier on one communicator; every call is judged on its own (oracle tree of ITS buffers), and the
+whole trace of every rank is co-simulated against the extracted HISTORY program hist_prog of C03/ReduceHist.v (the program of the
+theorems C03_hist_*), payloads and outputs evaluated with the operator and datatype of the call they belong to."""
 import os, sys, json, struct
 import vlib, mpitrace
 sys.path.insert(0, os.path.join(vlib.TOOLS, "c2g"))
@@ -74,9 +78,10 @@ def apply_op(op, dt, s, r):
     return out
 
 
-def eval_sym(expr, op, dt, leaf, tokens):
-    """expr: list of ints (prefix code).  leaf(r) / tokens[k] give element vectors."""
-    pos = [0]
+def eval_sym(expr, op, dt, leaf, tokens, start=0, want_pos=False):
+    """expr: list of ints (prefix code).  leaf(r) / tokens[k] give element vectors.  Reads ONE tree beginning at `start`
+    (the outputs of a history of calls are several trees in a row); with want_pos also returns where it ends."""
+    pos = [start]
 
     def go():
         t = expr[pos[0]]
@@ -93,7 +98,7 @@ def eval_sym(expr, op, dt, leaf, tokens):
         r = go()
         return apply_op(op, dt, s, r)
     v = go()
-    return v
+    return (v, pos[0]) if want_pos else v
 
 
 def oracle_tree(op, dt, xs, P):
@@ -178,6 +183,74 @@ def gen_cases(ctx):
     return cases
 
 
+KIND = ["sc_reduce", "sc_allreduce", "sc_reduce_custom", "sc_allreduce_custom"]
+
+
+def gen_seqs(ctx):
+    """SEQUENCES of 2-5 calls on one communicator, back to back with no barrier: all four entry points, count / datatype /
+    operator / target changing from call to call; the same target twice in a row with different counts (two messages of
+    different lengths from the same sender in one channel), targets moving, allreduce between reduces.  Adversaries that let
+    single ranks run ahead (starve, low-first, high-first) are over-represented.  A sequence = (P, seed, adv, [(op, dt, count, target, vals)])."""
+    rng = ctx.rng
+    seqs = []
+    Ps = [2, 3, 5, 8, 9, 12, 17, 33] if ctx.quick else [2, 3, 4, 5, 7, 8, 9, 10, 12, 16, 17, 24, 31, 32, 33, 40, 64, 65]
+
+    def one_call(P, kind, target=None, count=None):
+        if kind < 2:
+            op, dt = rng.choice([0, 1, 2]), rng.randrange(9)
+            cnt = rng.choice([0, 1, 2, 3, 5, 8]) if count is None else count
+        else:
+            op, dt = rng.choice([3, 4]), 1
+            cnt = (rng.choice([2, 4, 6]) if op == 3 else rng.choice([3, 6, 9])) if count is None else count * (2 if op == 3 else 3)
+        t = -1 if kind in (1, 3) else (rng.randrange(P) if target is None else target)
+        vals = tuple(gen_value(rng, dt) for _ in range(P * cnt))
+        return (op, dt, cnt, t, vals)
+    for P in Ps:
+        for rep_ in range(4 if ctx.quick else 8):
+            n = rng.randrange(2, 6)
+            if rep_ == 0:
+                # all four entry points in one sequence, in random order, plus one more call
+                kinds = rng.sample(range(4), 4) + [rng.randrange(4)]
+                calls = [one_call(P, k) for k in kinds]
+            elif rep_ == 1:
+                # the same target again and again with growing buffers, then another target: FIFO per (source, destination, tag)
+                t = rng.randrange(P)
+                calls = [one_call(P, rng.choice([0, 2]), target=t, count=c) for c in (1, 3, 2)[:max(2, n - 1)]] + [one_call(P, 0, target=(t + 1) % P)]
+            else:
+                calls = [one_call(P, rng.randrange(4)) for _ in range(n)]
+            adv = rng.choice([0, 1, 1, 1, 2, 3, 4, 5, 6, 6, 7, 7])
+            seqs.append((P, rng.randrange(1 << 30), adv, calls))
+    return seqs
+
+
+def seq_text(q):
+    P, seed, adv, calls = q
+    t = "seq %d %d %d %d\n" % (P, seed, adv, len(calls))
+    for (op, dt, count, target, vals) in calls:
+        t += "%d %d %d %d\n%s\n" % (op, dt, count, target, " ".join("%x" % x for x in vals))
+    return t
+
+
+def split_calls(trace, P, ncalls):
+    """the trace of a sequence run cut at the "call-end" notes of every rank: one sub-trace per call; and how far ahead of the
+    slowest unfinished rank the fastest one got (in calls), following the global completion order of the trace"""
+    cur = [0] * P
+    parts = [[] for _ in range(ncalls + 1)]
+    lag = 0
+    for e in trace:
+        r = e.get("r", -1)
+        if not 0 <= r < P:
+            continue
+        if e.get("f") == "note":
+            cur[r] += 1
+            continue
+        parts[min(cur[r], ncalls)].append(e)
+        active = [c for c in cur if c < ncalls]
+        if active:
+            lag = max(lag, max(active) - min(active))
+    return parts, lag
+
+
 def run(ctx):
     import genall
     # T1: Gen/Consts.v, Gen/Search.v, Gen/Macros.v and Gen/ReduceC03.v (the arithmetic of sc_reduce_recursive / _alltoall / _custom_dispatch
@@ -223,12 +296,19 @@ def run(ctx):
     exe = ctx.cc([os.path.join(vlib.TOOLS, "harness", "c03_harness.c"), os.path.join(vlib.TOOLS, "simmpi", "simmpi.c")],
                  os.path.join(ctx.scratch, "c03_harness"), v, extra=("-DTRACE_MAXPAYLOAD=8388608",))   # long buffers are co-simulated too
     cases = gen_cases(ctx)
+    seqs = gen_seqs(ctx)
     if ctx.replay:
         rp = json.load(open(ctx.replay)).get("replay", {})
         if "case" in rp:
             c = rp["case"]
             cases = [tuple(c[:8]) + (tuple(c[8]),)] + cases[:5]
+            seqs = seqs[:2]
+        if "seq" in rp:
+            q = rp["seq"]
+            seqs = [(q[0], q[1], q[2], [tuple(c[:4]) + (tuple(c[4]),) for c in q[3]])] + seqs[:2]
+            cases = cases[:5]
     text = "".join(" ".join(str(x) for x in c[:8]) + "\n" + " ".join("%x" % x for x in c[8]) + "\n" for c in cases)
+    text += "".join(seq_text(q) for q in seqs)
     env = dict(os.environ, VERIF_SCRATCH=ctx.scratch, ASAN_OPTIONS="detect_leaks=0")
     rc, lines, err = ctx.run_lines([exe], text, timeout=1500, env=env)
     if rc != 0:
@@ -291,6 +371,73 @@ def run(ctx):
             evs.append("O -")
             mlines.append("prog %x %x %d %x | %s" % (P, q, 1 if target < 0 else 0, max(target, 0), " ; ".join(evs)))
             mindex.append((i, q))
+    # ---- sequences of calls, judged per call
+    sdist = {"sequences": len(seqs), "calls": 0, "entry": dict((k, 0) for k in KIND), "length": {}, "calls_ahead": {}, "adversary": {},
+             "same_target_twice_other_count": 0, "P": {}}
+    seq_run = {}
+    for si, q in enumerate(seqs):
+        P, seed, adv, calls = q
+        ri = len(cases) + si
+        meta = tuple((c[0], c[1], c[2], c[3]) for c in calls)
+        ctx.count_case(("seq", P, seed, adv, meta), nontrivial=P > 1 and any(c[2] > 0 for c in calls))
+        sdist["calls"] += len(calls)
+        sdist["length"][len(calls)] = sdist["length"].get(len(calls), 0) + 1
+        sdist["adversary"][adv] = sdist["adversary"].get(adv, 0) + 1
+        sdist["P"][P] = sdist["P"].get(P, 0) + 1
+        for j, c in enumerate(calls):
+            sdist["entry"][KIND[(2 if c[0] >= 3 else 0) + (1 if c[3] < 0 else 0)]] += 1
+            if j and c[3] >= 0 and calls[j - 1][3] == c[3] and calls[j - 1][2] * SZ[calls[j - 1][1]] != c[2] * SZ[c[1]]:
+                sdist["same_target_twice_other_count"] += 1
+        if ri >= len(runs):
+            ctx.tie_broken("harness output", "sequence run %d missing" % si)
+            break
+        r = runs[ri]
+        rep = dict(seq=[P, seed, adv, [list(c[:4]) + [list(c[4])] for c in calls]], rc=r.rc, report=r.report[:1500])
+        key = "seq-P%d-%s" % (P, "".join("arAR"[(2 if c[0] >= 3 else 0) + (1 if c[3] < 0 else 0)] for c in calls))
+        if r.rc != 0:
+            nbad += 1
+            if nbad <= 3:
+                ctx.violation("schedule:" + key, "sequence of %d reduce calls did not end normally (simmpi code %s): %s" % (len(calls), r.rc, r.report[:300]), rep)
+            continue
+        souts = []           # souts[q][j]
+        for qq in range(P):
+            w = r.outs[qq].split()
+            hs = w[1].split("/") if len(w) > 1 else []
+            souts.append([words_of(b"" if h in ("-", "none") else bytes.fromhex(h), SZ[calls[j][1]]) for j, h in enumerate(hs)])
+        okrun = all(len(x) == len(calls) for x in souts)
+        if not okrun:
+            ctx.tie_broken("harness output", "sequence run %d: outputs incomplete" % si)
+            continue
+        for j, (op, dt, count, target, vals) in enumerate(calls):
+            xs = [list(vals[qq * count:(qq + 1) * count]) for qq in range(P)]
+            exp = oracle_tree(op, dt, xs, P)
+            for qq in (range(P) if target < 0 else [target]):
+                if souts[qq][j] != exp:
+                    nbad += 1
+                    if nbad <= 3:
+                        rep2 = dict(rep, call=j, rank=qq, got=["%x" % x for x in souts[qq][j]], expected=["%x" % x for x in exp])
+                        ctx.violation("value:" + key, "call %d (%s) of a sequence, rank %d: result differs from the balanced tree over rank order of THIS call's buffers" % (
+                            j, KIND[(2 if op >= 3 else 0) + (1 if target < 0 else 0)], qq), rep2)
+                    break
+        if r.mem not in (0, None):
+            ctx.violation("memory:" + key, "sc_memory_status changed by %s over a sequence of reduce calls" % r.mem, rep)
+        parts, lag = split_calls(r.trace, P, len(calls))
+        sdist["calls_ahead"][lag] = sdist["calls_ahead"].get(lag, 0) + 1
+        if parts[len(calls)]:
+            ctx.tie_broken("sequence trace", "run %d: MPI calls after the last call-end note" % si)
+        pers = [mpitrace.rank_events(parts[j], P) for j in range(len(calls))]
+        seq_run[si] = (pers, souts)
+        for qq in range(P):
+            evs = []
+            for j in range(len(calls)):
+                for e in [x for x in pers[j][qq] if x[0] != "W"]:
+                    if e[0] == "S":
+                        evs.append("S %x %x -" % (e[1], e[2]))
+                    elif e[0] == "R":
+                        evs.append("R %x %x %x -" % (e[1], e[2], e[3] if e[3] is not None else 0))
+            evs.append("O -")
+            mlines.append("hist %x %x %s | %s" % (P, qq, " ".join("%d %x" % (1 if c[3] < 0 else 0, max(c[3], 0)) for c in calls), " ; ".join(evs)))
+            mindex.append((("seq", si), qq))
     # same data, different schedules / targets: identical bits
     for k, lst in groups.items():
         ref = lst[0][2][0]
@@ -310,9 +457,66 @@ def run(ctx):
             ctx.tie_broken("c03 model run", "exit %s, %d of %d lines: %s" % (rc2, len(mout), len(mlines), err2[-500:]))
         nmis = 0
         ncos = 0
+        nseq_cos = 0
         for (i, q), l in zip(mindex, mout):
             if i == "tree":
                 trees[q] = [int(x, 16) for x in l.split(",")] if l != "-" else []
+                continue
+            if isinstance(i, tuple):
+                # one rank of a sequence: the whole trace against the history program; payloads and outputs per call
+                si = i[1]
+                P, seed, adv, calls = seqs[si]
+                if not l.startswith("OK"):
+                    nmis += 1
+                    if nmis <= 3:
+                        ctx.tie_broken("co-simulation rank %d of sequence %s" % (q, (P, seed, adv, [c[:4] for c in calls])), l[:400])
+                    continue
+                nseq_cos += 1
+                pers, souts = seq_run[si]
+                evcall, toks, sent = [], [], []
+                for j in range(len(calls)):
+                    for e in pers[j][q]:
+                        if e[0] in ("S", "R"):
+                            evcall.append(j)
+                            sent.append(e)
+                        if e[0] == "R":
+                            toks.append(words_of(e[4] or b"", SZ[calls[j][1]]))
+
+                def leaf_of(code):
+                    j, rr = code >> 16, code & 0xffff
+                    cnt = calls[j][2]
+                    return list(calls[j][4][rr * cnt:(rr + 1) * cnt])
+                for part in l.split(" | ")[1:]:
+                    name, _, ex = part.partition("=")
+                    expr = [int(x, 16) for x in ex.split(",")] if ex != "-" else []
+                    if name == "O":
+                        pos = 0
+                        for j, c in enumerate(calls):
+                            if not (c[3] < 0 or c[3] == q):
+                                continue
+                            if pos >= len(expr):
+                                val = None
+                            else:
+                                val, pos = eval_sym(expr, c[0], c[1], leaf_of, toks, start=pos, want_pos=True)
+                            if val != souts[q][j]:
+                                nmis += 1
+                                if nmis <= 3:
+                                    ctx.tie_broken("co-simulation output of call %d, rank %d of sequence %s" % (j, q, (P, seed, adv, [c_[:4] for c_ in calls])),
+                                                   "model %s impl %s" % (val, souts[q][j]))
+                        if pos != len(expr):
+                            nmis += 1
+                            if nmis <= 3:
+                                ctx.tie_broken("co-simulation output rank %d of sequence %d" % (q, si), "the model returns more values than this rank is entitled to")
+                    else:
+                        idx = int(name[1:])
+                        j = evcall[idx]
+                        val = eval_sym(expr, calls[j][0], calls[j][1], leaf_of, toks)
+                        got = words_of(sent[idx][3], SZ[calls[j][1]])
+                        if val != got:
+                            nmis += 1
+                            if nmis <= 3:
+                                ctx.tie_broken("co-simulation payload rank %d event %d (call %d) of sequence %s" % (q, idx, j, (P, seed, adv, [c_[:4] for c_ in calls])),
+                                               "model %s impl %s" % (val, got))
                 continue
             c = cases[i]
             P, seed, adv, op, dt, count, target, dseed, vals = c
@@ -356,17 +560,25 @@ def run(ctx):
                 if nmis <= 3:
                     ctx.tie_broken("global tree model vs implementation, case %s" % (c[:8],), "model %s impl %s" % (val, per_run[i][1][q]))
         ctx.notes["cosimulated_rank_traces"] = ncos
+        ctx.notes["cosimulated_rank_traces_of_sequences"] = nseq_cos
         ctx.notes["cosim_mismatches"] = nmis
     except vlib.BuildError as e:
         ctx.tie_broken("c03 model build", str(e)[-1500:])
     ctx.cov["disagreements_checked"] = len(mlines)
     ctx.cov["rule"] = ("runs of sc_reduce/sc_allreduce(+_custom) on the simulated MPI: P on both sides of 8/9, 16/17, 32/33, all 9 datatypes, MIN/MAX/SUM and an "
                        "associative non-commutative custom operators on pairs and on triples of items, counts 0..6 and 65538 (262152 bytes: long buffers), values incl. +-0, 1e16/1/-1e16, integer extremes; each data set is reduced to "
-                       "several targets and all-reduced under different seeds and adversaries and the bits compared; non-trivial = P > 1 and count > 0")
+                       "several targets and all-reduced under different seeds and adversaries and the bits compared; non-trivial = P > 1 and count > 0.  "
+                       "Sequences of 2-5 calls without barriers (all four entry points in one sequence; the same target repeatedly with other counts; random), "
+                       "P on both sides of 8/9, adversaries that let ranks run ahead over-represented (notes.sequences.calls_ahead = how many calls the fastest "
+                       "rank was ahead of the slowest unfinished one), every call judged by the oracle tree of its own buffers, every rank's whole trace "
+                       "co-simulated against hist_prog")
     ctx.notes["distribution"] = dist
+    ctx.notes["sequences"] = sdist
     for c in cases[:: max(1, len(cases) // 4)][:4]:
         ctx.sample({"P": c[0], "seed": c[1], "adversary": c[2], "op": c[3], "dtype": DTN[c[4]], "count": c[5], "target": c[6]})
-    ctx.cov["trusted_base"] = ["T1: the per-rank arithmetic of sc_reduce_recursive / sc_reduce_alltoall / sc_reduce_custom_dispatch (bias arguments, tests, recursion arguments, peers, tag, operand order, slots) and the dispatch tables + integer element operations of sc_reduce_max / _min / _sum are proved EQUAL to Gen/ReduceC03.v, regenerated from the working tree on every run (tools/c2g + slicelib + clang-14 JSON AST trusted); the oracle's SZ / SIGNED tables are compared with the generated dispatch tables on every run",
+    ctx.cov["trusted_base"] = ["T1: the per-rank arithmetic of sc_reduce_recursive / sc_reduce_alltoall / sc_reduce_custom_dispatch (bias arguments, tests, recursion arguments, peers, tag, operand order, slots), the WHOLE body and header of the posting loop of sc_reduce_alltoall (memcpy of the own contribution, Irecv / Isend with buffer, byte count, peer, tag, request slot, the unused slots), both Waitall calls with their counts, the allocation sizes, the copy of the result, the four arguments of every reduce_fn call, the buffers / count / datatype handed from the four entry points down to every level (target -1 exactly for the allreduce variants), the kernel chosen per operation, and the dispatch tables + integer element operations of sc_reduce_max / _min / _sum are proved EQUAL to Gen/ReduceC03.v, regenerated from the working tree on every run (tools/c2g + slicelib + clang-14 JSON AST trusted; add-ons of groups_C03.py: `a = b = v;` read as `b = v; a = b;`, and the syntactic test that data / count / datatype / reduce_fn / the tree position are never assigned in the two routines); the oracle's SZ / SIGNED tables are compared with the generated dispatch tables on every run",
+                               "sequences of calls: the cut of a rank's trace into calls is by the harness's trace note after each call",
+                               "message sizes: the messages are (count, datatype) (T1, unguarded); the co-simulation compares the BYTES simmpi reports for every message with the model's payload evaluated at the element size of the call's datatype, for all 9 datatypes of the harness",
                                "tools/simmpi and its trace", "Python float arithmetic as IEEE-754 binary64/binary32 (struct rounding) in the evaluation of symbolic payloads",
                                "sc_reduce: the step from the per-rank programs (tied to the C code by co-simulation of every rank's trace) to the global "
                                "tree model under all interleavings is PROVED (C03_reduce_every_schedule, interleaving semantics of coq/MPI/Sem.v; "
